@@ -87,6 +87,21 @@ pub fn handle(op: &str, a: &[&str]) -> Option<Resp> {
                 }
             }
             if fail.is_none() {
+                // a reader result is a fresh tree of the text: editing one result must not show in a
+                // later reading of the same text (after seeded change C01-r6m1: a parse cache handing
+                // out the same mutable tree)
+                let (mut d1, _) = Deb822::from_str_relaxed(&s);
+                for mut p in d1.paragraphs() {
+                    p.set("Zz-poked", "1");
+                }
+                d1.add_paragraph().set("Zz-new", "2");
+                let (d2, _) = Deb822::from_str_relaxed(&s);
+                let st2 = Deb822::from_str(&s);
+                if d2.to_string() != s || st2.as_ref().map(|d| d.to_string() != s).unwrap_or(false) {
+                    fail = Some("reading the same text again after an earlier result was edited does not reproduce the text".to_string());
+                }
+            }
+            if fail.is_none() {
                 // read / read_relaxed over the same bytes
                 match Deb822::read_relaxed(s.as_bytes()) {
                     Ok((d3, e3)) => {
@@ -189,9 +204,9 @@ fn lookup_keys(keys: Vec<String>) -> Vec<String> {
 }
 
 /// a reader that hands out at most `step` bytes per read() call
-struct Dribble<'a> {
-    data: &'a [u8],
-    step: usize,
+pub struct Dribble<'a> {
+    pub data: &'a [u8],
+    pub step: usize,
 }
 
 impl<'a> std::io::Read for Dribble<'a> {
@@ -586,6 +601,26 @@ pub fn generate_c03(tier: &str, seed: u64, out: &mut Out) {
 /// malformed lines of every kind the parser reports (each yields one or two errors)
 pub const VOLUME_UNITS: [&str; 9] = ["-x\n", "é\n", "nocolon\n", "@", ": v\n", " orphan\n", "A\n", "A: b\n-\n", "%%\n\n"];
 
+/// long inputs whose multi-byte characters lie across every power-of-two block boundary up to
+/// 16 KiB (a reader that decodes block by block would split them)
+pub fn block_boundary_docs() -> Vec<String> {
+    let mut v = vec![];
+    for pre in ["A: ", "A:  ", "# c\nB: "] {
+        for ch in ["é", "€", "😀"] {
+            let mut t = String::from(pre);
+            while t.len() < 20_000 {
+                for _ in 0..60 {
+                    t.push_str(ch);
+                }
+                t.push_str("\n ");
+            }
+            t.push_str("x\n");
+            v.push(t);
+        }
+    }
+    v
+}
+
 pub fn generate_c01(tier: &str, seed: u64, out: &mut Out) {
     for t in gen_texts(tier, seed) {
         out.req("deb.read", &[es(&t)]);
@@ -617,19 +652,7 @@ pub fn generate_c01(tier: &str, seed: u64, out: &mut Out) {
             }
         }
     }
-    // long inputs whose multi-byte characters lie across every power-of-two block boundary up to
-    // 16 KiB (a reader that decodes block by block would split them)
-    for pre in ["A: ", "A:  ", "# c\nB: "] {
-        for ch in ["é", "€", "😀"] {
-            let mut t = String::from(pre);
-            while t.len() < 20_000 {
-                for _ in 0..60 {
-                    t.push_str(ch);
-                }
-                t.push_str("\n ");
-            }
-            t.push_str("x\n");
-            out.req("deb.read", &[es(&t)]);
-        }
+    for t in block_boundary_docs() {
+        out.req("deb.read", &[es(&t)]);
     }
 }
